@@ -56,7 +56,7 @@ func (g *GroupWorld) newInstance(asg string, fleet bool) *Inst {
 		if g.w.cfg.ForceFault["never-ready"] == "all" {
 			never = true
 		}
-		if g.cfg.FleetTimeout == "" {
+		if g.cfg.FleetTimeout == "" || g.w.cfg.FaultOnlyGroup != "" && g.w.cfg.FaultOnlyGroup != g.name {
 			never = false // default 1m timeout is a whole number of seconds: a never-ready fleet would tie ticker and deadline
 		}
 		if !(never && g.w.cfg.Faults[FNeverReady] && !g.w.cfg.Calm) {
